@@ -580,7 +580,7 @@ theorem validateHdmRef_noop_partial (g : Bool) (s : VState) (x : Input α) (e : 
       by_cases hp : a.rows - a.rows / 2 ≤ 1
       · rw [← ha.1]; omega
       · have hok : ∃ s'', hdmProxy s' a.rows = (s'', .ok ()) := by
-          unfold hdmProxy; simp only [hp, if_false]; split <;> exact ⟨_, rfl⟩
+          unfold hdmProxy; simp only [hp, if_false]; exact ⟨_, rfl⟩
         obtain ⟨s'', hs''⟩ := hok
         rw [hr] at h; simp only [hs''] at h; simp at h
 
@@ -836,15 +836,32 @@ theorem container_matters_in_batch_gap :
 example : outsX .stream VState.init [(Input.scalar 4 : Input Nat), .list [5], .dataframe ["a"] 1 [6], .ndarray2d 2 1 [7, 8]]
     = outsX .stream VState.init [.series [4], .ndarray2d 1 1 [5], .ndarray1d [6], .dataframe ["a"] 2 [7, 8]] := by rfl
 
-/-! ### the HistogramDensityMethod quirk behind the `hdm-array-reference-then-named-dataframe` finding -/
+/-! ### HistogramDensityMethod after fix 65ffa2d -/
 
-/-- HDDDM(detect_batch=1): after `set_reference` with a bare array the internal proxy update has recorded
-    the labels `0..w-1` as column names; a DataFrame carrying real names — valid input by the property — is
-    then rejected -/
-theorem hdm_array_reference_then_frame_rejected :
+/-- HDDDM(detect_batch=1): `set_reference` with a bare array records the width only (the internal proxy
+    update is an array and records no names); a DataFrame carrying real names is then accepted and
+    establishes the names -/
+theorem hdm_array_reference_then_frame_accepted :
     let s := (validateHdmRef false VState.init (Input.ndarray2d 8 2 (List.replicate 16 0) : Input Nat)).1
-    s = { cols := some ["0", "1"], dim := some 2 } ∧
-    (validateX .batch s (Input.dataframe ["a", "b"] 8 (List.replicate 16 0))).2 = .error .names := by
+    s = { cols := none, dim := some 2 } ∧
+    validateX .batch s (Input.dataframe ["a", "b"] 8 (List.replicate 16 0))
+      = ({ cols := some ["a", "b"], dim := some 2 }, .ok ⟨8, 2, List.replicate 16 0⟩) := by
   refine ⟨rfl, rfl⟩
+
+/-- an accepted `set_reference` of HDDDM / CDBD(detect_batch=1) leaves exactly the state of the plain validation -/
+theorem validateHdmRef_ok_state (g : Bool) (s s' : VState) (x : Input α) (a : Arr α)
+    (h : validateHdmRef g s x = (s', .ok a)) :
+    (if g then validateCdbd s x else validateX .batch s x) = (s', .ok a) := by
+  unfold validateHdmRef at h
+  cases hr : (if g then validateCdbd s x else validateX .batch s x) with
+  | mk s1 r =>
+    rw [hr] at h
+    cases r with
+    | error e => simp at h
+    | ok a1 =>
+      by_cases hp : a1.rows - a1.rows / 2 ≤ 1
+      · simp [hdmProxy, hp] at h
+      · simp [hdmProxy, hp] at h
+        obtain ⟨h1, h2⟩ := h; subst h1; subst h2; rfl
 
 end MV.Validate
